@@ -145,6 +145,8 @@ def explore(mod, pid, args):
             print(f'HARNESS-ERROR: evidence not valid: {e}')
             return exit_code or 2
         print(f'evidence: {p}')
+    if core.TRACE_ON:
+        print(f'TRACE-DIGEST {pid} {core.digest(sorted(total.sets.get("rundigests", ())))} runs={total.runs}')
     print(f'{pid}: runs={total.runs} steps={total.steps} distinct_nontrivial={cov.get("distinct_nontrivial")} '
           f'violations={ev["violations"]} wall={wall:.1f}s exit={exit_code}')
     return exit_code
